@@ -128,6 +128,130 @@ def rule_pn53x_build(report, prog):
                  key(PN, 'ACK frame constant 00 00 FF 00 FF 00'), f.loc(), 'ACK constant changed')
 
 
+def _pn53x_response(code, payload, extended):
+    body = bytes([0xD5, code + 1]) + bytes(payload)
+    dcs = -sum(body) & 0xFF
+    if extended:
+        hi, lo = len(body) >> 8, len(body) & 0xFF
+        head = b'\x00\x00\xff\xff\xff' + bytes([hi, lo, -(hi + lo) & 0xFF])
+    else:
+        head = b'\x00\x00\xff' + bytes([len(body), -len(body) & 0xFF])
+    return head + body + bytes([dcs, 0])
+
+
+def _pn53x_corruptions(code, payload, extended):
+    """-> [(what, frame)]: one defect each, everything else kept consistent."""
+    good = _pn53x_response(code, payload, extended)
+    h = 8 if extended else 5
+    out = []
+    out.append(('start code', b'\x00\x00\xfe' + good[3:]))
+    out.append(('start code', b'\x00\xff' + good[2:]))
+    bad = bytearray(good)
+    bad[h - 1] ^= 0x01
+    out.append(('length checksum', bytes(bad)))
+    # LEN one too large / one too small with a matching checksum
+    for d in (1, -1):
+        n = len(payload) + 2 + d
+        if n < 0 or (not extended and n > 255):
+            continue
+        bad = bytearray(good)
+        if extended:
+            bad[5], bad[6] = n >> 8, n & 0xFF
+            bad[7] = -(bad[5] + bad[6]) & 0xFF
+        else:
+            bad[3], bad[4] = n, -n & 0xFF
+        out.append(('length value', bytes(bad)))
+    bad = bytearray(good)
+    bad[-2] ^= 0x10
+    out.append(('data checksum', bytes(bad)))
+    if payload:
+        bad = bytearray(good)
+        bad[h + 2] ^= 0x04
+        out.append(('data checksum', bytes(bad)))
+    for tfi in (0xD4, 0x00):
+        bad = bytearray(good)
+        bad[h] = tfi
+        bad[-2] = -sum(bad[h:-2]) & 0xFF
+        out.append(('frame identifier D5', bytes(bad)))
+    for c in (code, code + 2):
+        bad = bytearray(good)
+        bad[h + 1] = c & 0xFF
+        bad[-2] = -sum(bad[h:-2]) & 0xFF
+        out.append(('response code == command + 1', bytes(bad)))
+    for k in range(0, len(good)):
+        out.append(('complete frame', good[:k]))
+    # any single corrupted byte (every byte of the frame is covered by the start code, a checksum or the postamble)
+    for k in range(len(good)):
+        for bit in (0x01, 0x80):
+            bad = bytearray(good)
+            bad[k] ^= bit
+            what = 'start code' if k < 3 else 'length checksum' if k < h else 'data checksum'
+            out.append((what, bytes(bad)))
+    return out
+
+
+def _pn53x_response_sweep(report, prog, f, ret):
+    from ..q import fold_block, NotConst
+    body = list(f.node.body)
+    first = [i for i, st in enumerate(body) if isinstance(st, ast.If) and 'frame.startswith(' in norm(st.test)]
+    cls = prog.cls(PN)
+    sof = prog.lookup(cls, 'SOF')
+    sof = try_const(sof[2]) if isinstance(sof, tuple) else None
+    if not first or sof is None:
+        report.fail('C14-R2', key(f.qname, 'response handling folds'), f.loc(),
+                    'the response handling of Chipset.command() (from the start code test to the return) is no longer a statement sequence of '
+                    'the function body: the conformance sweep cannot be applied')
+        return
+    region = body[first[0]:]
+
+    class _ChipError(Exception):
+        pass
+
+    def chipset_error(*a):
+        raise _ChipError()
+
+    def run(frame, code):
+        env = {'frame': bytearray(frame), 'cmd_code': code, 'self.SOF': bytearray(sof), '__calls__': {'self.chipset_error': chipset_error}}
+        try:
+            return fold_block(region, env)
+        except _ChipError:
+            return ('raise', 'chipset_error')
+        except NotConst as e:
+            return ('notconst', str(e))
+        except (IndexError, ValueError, TypeError) as e:
+            return ('error', '%s: %s' % (type(e).__name__, e))
+    bad = {}
+    n = 0
+    for code in (0x00, 0x32, 0xFE):
+        for ln in (0, 1, 2, 17, 253, 254, 262):
+            payload = bytes((i * 5 + ln) & 0xFF for i in range(ln))
+            for extended in (False, True):
+                if not extended and ln + 2 > 255:
+                    continue
+                n += 1
+                r = run(_pn53x_response(code, payload, extended), code)
+                if r != ('return', payload) and not (r[0] == 'return' and bytes(r[1]) == payload):
+                    bad.setdefault('well-formed frame', []).append('%s frame with %d data bytes -> %s %s' % (
+                        'extended' if extended else 'normal', ln, r[0], str(r[1])[:60]))
+                if ln > 17:
+                    continue
+                for what, fr in _pn53x_corruptions(code, payload, extended):
+                    n += 1
+                    r = run(fr, code)
+                    if not (r[0] == 'raise' and (r[1].startswith('IOError(errno.EIO') or r[1] == 'chipset_error')):
+                        bad.setdefault(what, []).append('%s -> %s %s' % (fr.hex(), r[0], str(r[1])[:60]))
+    report.stats['pn53x_response_frames_folded'] = n
+    for what in ('well-formed frame', 'start code', 'length checksum', 'length value', 'data checksum', 'frame identifier D5',
+                 'response code == command + 1', 'complete frame'):
+        if what == 'well-formed frame':
+            report.check(what not in bad, 'C14-R2', key(f.qname, 'a well-formed response hands back exactly its data'), f.loc(ret.ast),
+                         'Chipset.command() does not return the data of a well-formed response: %s' % '; '.join(bad.get(what, [])[:2]))
+        else:
+            report.check(what not in bad, 'C14-R2', key(f.qname, 'response returned only after check: ' + what), f.loc(ret.ast),
+                         'Chipset.command() can return response data without the check "%s": a corrupted frame is accepted as data, e.g. %s'
+                         % (what, '; '.join(bad.get(what, [])[:2])))
+
+
 def rule_pn53x_accept(report, prog):
     f = prog.func(PN + '.command')
     cfg = cfg_of(f)
@@ -136,79 +260,9 @@ def rule_pn53x_accept(report, prog):
         raise AnalysisError('C14-R2: command() has %d value returns' % len(rets))
     ret = rets[0]
     rb = match(ret.ast.value, 'frame[$A:$B]')
-    groups = {'start code': [], 'length checksum': [], 'length value': [], 'data checksum': [], 'frame identifier D5': [],
-              'response code == command + 1': []}
-    consts_ = {}
-    for e, t in cfg.test_nodes.items():
-        s = norm(e)
-        if s.startswith('frame.startswith(self.SOF'):
-            # as an if/elif chain: passing = true edges; the final else raises
-            groups['start code'].append((t, 'true'))
-        b = match(e, 'sum(frame[$A:$B]) & 255 != 0')
-        if b is not None:
-            groups['length checksum'].append((t, 'false'))
-            consts_.setdefault('lcs', []).append((try_const(b['A']), try_const(b['B']), t))
-        b = match(e, "unpack('>H', memoryview(frame[$A:$B]))[0] != len(frame) - $K") or \
-            match(e, "unpack('>H', frame[$A:$B])[0] != len(frame) - $K")
-        if b is not None:
-            groups['length value'].append((t, 'false'))
-            consts_['ext_len'] = (try_const(b['A']), try_const(b['B']), try_const(b['K']), t)
-        b = match(e, 'frame[$A] != len(frame) - $K')
-        if b is not None:
-            groups['length value'].append((t, 'false'))
-            consts_['norm_len'] = (try_const(b['A']), try_const(b['K']), t)
-        for txt, grp in (('sum(frame) & 255 %s 0', 'data checksum'), ('frame[0] %s 213', 'frame identifier D5'), ('frame[1] %s cmd_code + 1', 'response code == command + 1')):
-            if s == txt % '==':
-                groups[grp].append((t, 'true'))
-            if s == txt % '!=':
-                groups[grp].append((t, 'false'))
-    for what, edges in sorted(groups.items()):
-        okk, p = only_via(cfg, ret, edges, ps=False) if edges else (False, cfg.path(cfg.entry, ret))
-        report.check(okk, 'C14-R2', key(f.qname, 'response returned only after check: ' + what), f.loc(ret.ast),
-                     'Chipset.command() can return response data without the check "%s": a corrupted frame is accepted as data' % what,
-                     fmt(cfg, p))
-        # failing branch raises IOError
-        for t, lab in edges:
-            if what == 'start code':
-                continue
-            other = 'true' if lab == 'false' else 'false'
-            nxt = [m for m, l in t.succ if l == other]
-            reach = set()
-            for m in nxt:
-                reach |= cfg.reachable(m, labels_excluded=('exc',))
-            okr = ret not in reach
-            raised = [x for x in reach if x.kind == 'stmt' and isinstance(x.ast, ast.Raise)]
-            okio = bool(raised) and all('IOError(errno.EIO' in norm(x.ast) for x in raised if x in reach and
-                                        any(a is t.owner for a in ancestors(x.ast)))
-            report.check(okr and okio, 'C14-R2', key(f.qname, 'failed check raises IOError: ' + what, t.ast), f.loc(t.ast),
-                         'a failed "%s" check does not raise IOError(EIO)' % what)
-    # start-code chain: the else branch raises IOError
-    sc = [t for t, l in groups['start code'] if "b'\\xff\\xff'" in norm(t.ast)]
-    if sc:
-        top = sc[0].owner
-        node = top
-        while isinstance(node, ast.If) and len(node.orelse) == 1 and isinstance(node.orelse[0], ast.If):
-            node = node.orelse[0]
-        okk = isinstance(node, ast.If) and any(isinstance(x, ast.Raise) and 'IOError' in norm(x) for x in node.orelse)
-        report.check(okk, 'C14-R2', key(f.qname, 'unknown start sequence raises IOError'), f.loc(top),
-                     'a frame without valid start code is not rejected with IOError')
-    # header geometry: extended header 8 bytes (LEN at 5..6, LCS at 7), normal header 5 bytes (LEN at 3, LCS at 4)
-    dels = [(try_const(b['A']), try_const(b['B']), n) for n, b in find(f.node, 'del frame[$A:$B]')]
-    geo_ok = False
-    try:
-        ext_del = [d for d in dels if d[1] == 8][0]
-        nor_del = [d for d in dels if d[1] == 5][0]
-        lcs = sorted((a, b) for a, b, t in consts_.get('lcs', []))
-        el = consts_['ext_len']
-        nl = consts_['norm_len']
-        geo_ok = (lcs == [(3, 5), (5, 8)] and el[0:3] == (5, 7, 10) and nl[0:2] == (3, 7) and ext_del[0] == 0 and nor_del[0] == 0
-                  and el[2] == ext_del[1] + 2 and nl[1] == nor_del[1] + 2)
-    except (IndexError, KeyError):
-        geo_ok = False
-    report.check(geo_ok, 'C14-R2', key(f.qname, 'header offsets of the checks are consistent (5/7 normal, 8/10 extended)'), f.loc(),
-                 'offsets used by the response checks are inconsistent: dels=%s lcs=%s ext=%s norm=%s' % (
-                     [(a, b) for a, b, n in dels], [(a, b) for a, b, t in consts_.get('lcs', [])],
-                     consts_.get('ext_len', ())[0:3], consts_.get('norm_len', ())[0:2]))
+    # the response handling of command() folded (checker's own evaluator) for well-formed normal / extended frames and for every
+    # single corruption of them: the payload comes back for the former, IOError(EIO) is raised for each of the latter
+    _pn53x_response_sweep(report, prog, f, ret)
     report.check(rb is not None and try_const(rb['A']) == 2 and try_const(rb['B']) == -2, 'C14-R2',
                  key(f.qname, 'returned data excludes TFI/code and DCS/postamble'), f.loc(ret.ast),
                  'returned slice is %s' % norm(ret.ast.value))
@@ -282,22 +336,64 @@ def rule_acr122(report, prog):
     report.check(okk, 'C14-R3', key(f.qname, 'CCID header: 6F, LE32 length of the payload, 5 zero bytes (10 byte)'), f.loc(),
                  'CCID PC_to_RDR header construction changed: %s' % (norm(pk[0]) if pk else None))
     ret = [n for n in cfg.nodes if n.kind == 'stmt' and isinstance(n.ast, ast.Return)]
-    want = {'at least 10 byte': lambda s: s == 'len(frame) < 10', 'message type 80': lambda s: s == 'frame[0] != 128',
-            'length field': lambda s: s.startswith("len(frame) != 10 + struct.unpack('<I', memoryview(frame)[1:5])[0]")}
-    for what, pred in sorted(want.items()):
-        edges = [(t, 'false') for e, t in cfg.test_nodes.items() if pred(norm(e))]
-        okk, p = only_via(cfg, ret[0], edges, ps=False) if edges and ret else (False, None)
-        report.check(okk, 'C14-R3', key(f.qname, 'CCID response accepted only after check: ' + what), f.loc(),
-                     'ccid_xfr_block accepts a response without the check: %s' % what, fmt(cfg, p))
+    # the function folded (checker's own evaluator) with a modelled transport: a well-formed RDR_to_PC_DataBlock hands back its
+    # payload, every single corruption raises IOError(EIO)
+    from ..q import fold_block, NotConst
+
+    def body_of(fn):
+        b = list(fn.node.body)
+        return b[1:] if b and isinstance(b[0], ast.Expr) and isinstance(b[0].value, ast.Constant) else b
+
+    def run_ccid(response):
+        env = {'data': bytearray(b'\xd4\x02'), 'timeout': 0.1,
+               '__calls__': {'self.transport.write': lambda *a: None, 'self.transport.read': lambda *a: (bytearray(response) if response is not None else None)}}
+        try:
+            return fold_block(body_of(f), env)
+        except NotConst as e:
+            return ('notconst', str(e))
+        except (IndexError, ValueError, TypeError) as e:
+            return ('error', '%s: %s' % (type(e).__name__, e))
+    bad = {}
+    for ln in (0, 1, 6, 300):
+        payload = bytes((i * 3 + 1) & 0xFF for i in range(ln))
+        good = bytes([0x80]) + struct.pack('<I', ln) + bytes(5) + payload
+        r = run_ccid(good)
+        if not (r[0] == 'return' and bytes(r[1]) == payload):
+            bad.setdefault('well-formed block', []).append('%d payload bytes -> %s %s' % (ln, r[0], str(r[1])[:50]))
+        cases = [('message type 80', bytes([0x81]) + good[1:]), ('message type 80', bytes([0x00]) + good[1:]),
+                 ('length field', good[:1] + struct.pack('<I', ln + 1) + good[5:]), ('length field', good + b'\x00'),
+                 ('length field', good[:1] + struct.pack('>I', ln) + good[5:] if ln else good[:1] + struct.pack('<I', 256) + good[5:])]
+        for k in (1, 2, 3, 4):
+            for bit in (0x01, 0x80):
+                fr_ = bytearray(good)
+                fr_[k] ^= bit
+                cases.append(('length field', bytes(fr_)))
+        cases += [('at least 10 byte', good[:k]) for k in range(0, 10)] + [('at least 10 byte', None)]
+        if ln:
+            cases.append(('length field', good[:-1]))
+        for what, fr in cases:
+            r = run_ccid(fr)
+            if not (r[0] == 'raise' and r[1].startswith('IOError(errno.EIO')):
+                bad.setdefault(what, []).append('%s -> %s %s' % (fr.hex() if fr is not None else None, r[0], str(r[1])[:50]))
+    report.check('well-formed block' not in bad, 'C14-R3', key(f.qname, 'a well-formed CCID block hands back exactly its payload'), f.loc(),
+                 'ccid_xfr_block does not return the payload of a well-formed block: %s' % '; '.join(bad.get('well-formed block', [])[:2]))
+    for what in ('at least 10 byte', 'length field', 'message type 80'):
+        report.check(what not in bad, 'C14-R3', key(f.qname, 'CCID response accepted only after check: ' + what), f.loc(),
+                     'ccid_xfr_block accepts a response without the check: %s (%s)' % (what, '; '.join(bad.get(what, [])[:2])))
+    want = {}
     # ... and the frame that is returned is the frame that was checked: after each read from the transport every check lies on
     # every path to the return (a second read behind the checks -- retry, time extension -- would hand out an unchecked block)
-    reads = [n for n in cfg.nodes if n.kind == 'stmt' and isinstance(n.ast, ast.Assign) and norm(n.ast.targets[0]) == 'frame'
-             and 'self.transport.read(' in norm(n.ast.value)]
-    for what, pred in sorted(want.items()):
-        edges = [(t, 'false') for e, t in cfg.test_nodes.items() if pred(norm(e))]
-        bad_ = [r for r in reads if ret and edges and ret[0] in cfg.reachable(r, avoid_edges=edges)]
-        report.check(bool(reads) and not bad_, 'C14-R3', key(f.qname, 'every block read from the reader passes the check: ' + what), f.loc(bad_[0].ast) if bad_ else f.loc(),
-                     'a block read by `%s` reaches the return without the check: %s' % (norm(bad_[0].ast)[:60] if bad_ else '', what))
+    reads = [n for n in cfg.nodes if n.kind == 'stmt' and any(isinstance(c, ast.Call) and norm(c.func) == 'self.transport.read' for c in ast.walk(n.ast))
+             and isinstance(n.ast, (ast.Assign, ast.Expr, ast.Return, ast.AugAssign))]
+    # (the fold above follows one read; a read that can follow another one -- retry, time extension -- is outside what it covers)
+    again = [r for r in reads if any(r in cfg.reachable(r2) and (r is not r2 or r in [m for m, l in r2.succ]) for r2 in reads if r2 is not r)]
+    loops = [r for r in reads if r in cfg.reachable(r) and any(isinstance(a, (ast.While, ast.For)) for a in ancestors(r.ast))]
+    bad_ = again + loops
+    for what in ('at least 10 byte', 'length field', 'message type 80'):
+        report.check(len(reads) >= 1 and not bad_, 'C14-R3', key(f.qname, 'every block read from the reader passes the check: ' + what),
+                     f.loc(bad_[0].ast) if bad_ else f.loc(),
+                     'a block read by `%s` can follow the one the checks were applied to: it reaches the return without the check: %s'
+                     % (norm(bad_[0].ast)[:60] if bad_ else '', what))
     report.check(bool(ret) and norm(ret[0].ast.value) == 'frame[10:]', 'C14-R3', key(f.qname, 'payload starts after the 10 byte header'),
                  f.loc(), 'returned payload slice changed')
     raises = [x for x in walk_no_nested(f.node) if isinstance(x, ast.Raise)]
@@ -312,19 +408,37 @@ def rule_acr122(report, prog):
                  key(g.qname, 'pseudo APDU FF 00 00 00 Lc wraps D4 <cmd> <data>, Lc = wrapped length'), g.loc(),
                  'pseudo-APDU envelope changed')
     ret = [n for n in gc.nodes if n.kind == 'stmt' and isinstance(n.ast, ast.Return)]
-    want = {'at least 4 byte': lambda s: s == 'len(frame) < 4', 'D5 and response code': lambda s: s in ('frame[0] == 213', 'frame[1] == cmd_code + 1'),
-            'status 90 00': lambda s: s in ('frame[-2] == 144', 'frame[-1] == 0')}
-    for what, pred in sorted(want.items()):
-        tn = [(e, t) for e, t in gc.test_nodes.items() if pred(norm(e))]
-        edges = [(t, 'false' if norm(e).startswith('len(') else 'true') for e, t in tn]
-        need = 1 if what.startswith('at least') else 2
-        okk = len(edges) == need
-        if okk:
-            for ed in edges:
-                o, p = only_via(gc, ret[0], [ed], ps=False)
-                okk = okk and o
-        report.check(okk, 'C14-R3', key(g.qname, 'chip response accepted only after check: ' + what), g.loc(),
-                     'acr122 command() accepts a response without the check: %s' % what)
+
+    def run_cmd(code, response):
+        env = {'cmd_code': code, 'cmd_data': bytearray(b'\x01'), 'timeout': 0.1,
+               '__calls__': {'self.ccid_xfr_block': lambda *a: (bytearray(response) if response is not None else None)}}
+        try:
+            return fold_block(body_of(g), env)
+        except NotConst as e:
+            return ('notconst', str(e))
+        except (IndexError, ValueError, TypeError) as e:
+            return ('error', '%s: %s' % (type(e).__name__, e))
+    bad = {}
+    for code in (0x00, 0x4A, 0xFE):
+        for ln in (0, 1, 9):
+            payload = bytes((i * 3 + 1) & 0xFF for i in range(ln))
+            good = bytes([0xD5, code + 1]) + payload + b'\x90\x00'
+            r = run_cmd(code, good)
+            if not (r[0] == 'return' and bytes(r[1]) == payload):
+                bad.setdefault('well-formed response', []).append('%d data bytes -> %s %s' % (ln, r[0], str(r[1])[:50]))
+            cases = [('D5 and response code', bytes([0xD4]) + good[1:]), ('D5 and response code', good[:1] + bytes([code]) + good[2:]),
+                     ('D5 and response code', good[:1] + bytes([(code + 2) & 0xFF]) + good[2:]),
+                     ('status 90 00', good[:-2] + b'\x63\x00'), ('status 90 00', good[:-2] + b'\x90\x01'), ('status 90 00', good[:-2] + b'\x00\x90')]
+            cases += [('at least 4 byte', good[:k]) for k in range(0, 4)] + [('at least 4 byte', None)]
+            for what, fr in cases:
+                r = run_cmd(code, fr)
+                if not (r[0] == 'raise' and r[1].startswith('IOError(errno.EIO')):
+                    bad.setdefault(what, []).append('%s -> %s %s' % (fr.hex() if fr is not None else None, r[0], str(r[1])[:50]))
+    report.check('well-formed response' not in bad, 'C14-R3', key(g.qname, 'a well-formed chip response hands back exactly its data'), g.loc(),
+                 'acr122 command() does not return the data of a well-formed response: %s' % '; '.join(bad.get('well-formed response', [])[:2]))
+    for what in ('at least 4 byte', 'D5 and response code', 'status 90 00'):
+        report.check(what not in bad, 'C14-R3', key(g.qname, 'chip response accepted only after check: ' + what), g.loc(),
+                     'acr122 command() accepts a response without the check: %s (%s)' % (what, '; '.join(bad.get(what, [])[:2])))
     report.check(bool(ret) and norm(ret[0].ast.value) == 'frame[2:-2]', 'C14-R3', key(g.qname, 'returned data excludes D5/code and SW1 SW2'),
                  g.loc(), 'returned slice changed')
     raises = [x for x in walk_no_nested(g.node) if isinstance(x, ast.Raise)]
